@@ -2055,7 +2055,7 @@ impl Prop for C16 {
     fn case_count(&self, tier: Tier) -> u64 {
         match tier {
             Tier::Quick => 400,
-            Tier::Thorough => 20000,
+            Tier::Thorough => 12000,
         }
     }
     fn fixed_cases(&self, tier: Tier) -> Vec<Case> {
@@ -2148,7 +2148,7 @@ impl Prop for C16 {
         if rng.chance(1, 40) {
             return vec![symindexfault_line(*rng.pick(&[0u64, 100, 500, 900, 999, 1000]), rng.range(5, 500) as usize, seed)];
         }
-        if tier == Tier::Thorough && rng.chance(1, 400) {
+        if tier == Tier::Thorough && rng.chance(1, 500) {
             let (a, b) = if rng.chance(1, 2) { (rng.range(5, 60), rng.range(100, 400)) } else { (rng.range(100, 400), rng.range(5, 60)) };
             return vec![cancelwrite_line(a as usize, b as usize, seed)];
         }
